@@ -54,7 +54,7 @@ theorem C01_report (spec : SNode) (hs : wf spec = true) (c : Cfg) (hnc : 0 < c.n
     (hret : Act.ret (.ok b v a rj) dr ∈ (run c ss (some v0) d chs evs).2) : conf spec v = true := by
   have hci := run_confInv spec hs c ss v0 d hv0 chs hchs evs hlegal
   have h2 := run_inv2 c hnc ss v0 d chs evs
-  obtain ⟨_, ho⟩ := h2.retOut _ _ hret
+  obtain ⟨_, ho, _⟩ := h2.retOut _ _ hret
   simp only [outcome] at ho
   split at ho
   · simp at ho
